@@ -386,7 +386,7 @@ class Impl:
         except Exception as ex:  # noqa: BLE001
             return f"compile: {type(ex).__name__}: {str(ex)[:120]}"
 
-    def events(self, mapping: list[dict[str, Any]], docs: list[Any], per_line: bool, k: int) -> Any:
+    def events(self, mapping: list[dict[str, Any]], docs: list[Any], per_line: bool, k: int, tail: str = "") -> Any:
         fm = {f["name"]: to_field_spec(f) for f in mapping}
         d = os.path.join(self.tmp, f"c{k}")
         os.mkdir(d)
@@ -395,6 +395,7 @@ class Impl:
                 with open(os.path.join(d, "a.json"), "w") as f:
                     for doc in docs:
                         f.write(json.dumps(doc) + "\n")
+                    f.write(tail)   # exporters often leave an empty or blank last line
             else:
                 # one whole-file document per file; several files in one sub-directory each to fix the order
                 for i, doc in enumerate(docs):
@@ -464,7 +465,8 @@ def run(ctx: Ctx) -> None:
         wl = r.random() < 0.15
         mapping = gen_mapping(r, wl)
         docs = [gen_doc(r, wl) for _ in range(r.choice([1, 1, 2, 3]))]
-        cases.append({"mapping": mapping, "docs": docs, "per_line": r.random() < 0.5, "k": k})
+        cases.append({"mapping": mapping, "docs": docs, "per_line": r.random() < 0.5, "k": k,
+                      "tail": r.choice(["", "", "\n", "  \n", "\n\n"])})
         ctx.tick("without_list" if wl else "with_list")
     try:
         reps = LeanSide.drive({"op": "jq.run", "mapping": c["mapping"], "docs": [tagged(d) for d in c["docs"]]}
@@ -477,9 +479,11 @@ def run(ctx: Ctx) -> None:
             if ctx.too_many():
                 break
             recs = impl.records(case["mapping"], case["docs"])
-            evs = impl.events(case["mapping"], case["docs"], case["per_line"], case["k"])
+            evs = impl.events(case["mapping"], case["docs"], case["per_line"], case["k"], case["tail"])
+            if case["per_line"] and case["tail"]:
+                ctx.tick("per_line_blank_tail")
             ctx.tick("per_line" if case["per_line"] else "whole_file")
-            inp = {"mapping": case["mapping"], "docs": case["docs"], "per_line": case["per_line"]}
+            inp = {"mapping": case["mapping"], "docs": case["docs"], "per_line": case["per_line"], "tail": case["tail"]}
             nrec = sum(len(x) for x in recs if isinstance(x, list)) if isinstance(recs, list) else 0
             nev = len(evs) if isinstance(evs, list) else 0
             ctx.case(inp, nrec >= 2 and (nev < nrec or any(len(p) > 1 or p[0]["kv"] for f in case["mapping"] for p in f["parts"])),
@@ -559,7 +563,7 @@ def replay(data: dict[str, Any]) -> int:
     impl = Impl()
     try:
         recs = impl.records(case["mapping"], case["docs"])
-        evs = impl.events(case["mapping"], case["docs"], case["per_line"], 0)
+        evs = impl.events(case["mapping"], case["docs"], case["per_line"], 0, case.get("tail", ""))
         rc = 0
         if isinstance(recs, list):
             for d, got in zip(case["docs"], recs):
